@@ -38,6 +38,8 @@ var walkExceptions = []walkException{
 	{"msl/internal/codegen.blockEndsWithReturn/StatementKind", "StmtLoop", "ends-with-return predicate: loops are deliberately not descended"},
 	{"dxil.blockHasBreakContinue/StatementKind", "StmtLoop", "break/continue inside a nested loop bind to that loop, so nested loops are deliberately not descended"},
 	{"msl/internal/codegen.adjustBlockHandles/StatementKind", "StmtImageAtomic.Fun", "image atomics carry no Compare handle (rule imageatomic.nocompare)"},
+	{"dxil/internal/passes/dce.markStmtRoots/StatementKind", "StmtImageAtomic.Fun", "image atomics carry no Compare handle (rule imageatomic.nocompare)"},
+	{"dxil/internal/passes/dce.markStmtRoots/StatementKind", "StmtEmit", "dead-code elimination: an Emit range is what the pass decides about, not a root; emitted expressions are kept only through the statements and expressions that use them"},
 }
 
 func inPkgs(prefixes ...string) func(string) bool {
